@@ -318,6 +318,38 @@ package pegnet
 //@   ensures envHealthy ==> result1 == nil || result1 == sql.ErrNoRows
 //@
 //@ // coinbase history rows (no balance effect)
+//@ // ---- read-only query leaves used by the API (C18): assumed to issue SELECT statements only (scanned: read_only_leaves)
+//@ func (*Pegnet).SelectTransactionHistoryStatus
+//@   trusted
+//@   pure
+//@ func (*Pegnet).SelectRichList
+//@   trusted
+//@   pure
+//@ func (*Pegnet).SelectRates
+//@   trusted
+//@   pure
+//@ func (*Pegnet).SelectMinerDominance
+//@   trusted
+//@   pure
+//@ func (*Pegnet).SelectGraded
+//@   trusted
+//@   pure
+//@ func (*Pegnet).SelectAllBalances
+//@   trusted
+//@   pure
+//@ func (*Pegnet).SelectTransactionHistoryActionsByHash
+//@   trusted
+//@   pure
+//@ func (*Pegnet).SelectTransactionHistoryActionsByAddress
+//@   trusted
+//@   pure
+//@ func (*Pegnet).SelectTransactionHistoryActionsByTxID
+//@   trusted
+//@   pure
+//@ func (*Pegnet).SelectTransactionHistoryActionsByHeight
+//@   trusted
+//@   pure
+//@
 //@ func (*Pegnet).InsertFCTBurn
 //@   trusted
 //@   pure
